@@ -86,6 +86,19 @@ type fnTrans struct {
 	iterCovered map[string]int
 	deferGuard  map[*ssa.Defer]string
 	currentLemma string
+	globalSeen   map[string]bool
+}
+
+// globalFact records that a package-level variable exists before the function starts.
+func (tr *fnTrans) globalFact(g string) {
+	if tr.globalSeen == nil {
+		tr.globalSeen = map[string]bool{}
+	}
+	if tr.globalSeen[g] {
+		return
+	}
+	tr.globalSeen[g] = true
+	tr.asserts = append(tr.asserts, and(not(app("=", g, "nilref")), app("<", app("allocT", g), q("$clock@0"))))
 }
 
 // homeOf returns the package that declares the contract text located at where ("file:line"), or nil
@@ -602,6 +615,7 @@ func (tr *fnTrans) val(v ssa.Value) Term {
 	case *ssa.Global:
 		t := Term{c.declConst("glob:"+x.String(), "Ref"), "Ref", v.Type()}
 		tr.asserts = append(tr.asserts, not(app("=", t.S, "nilref")))
+		tr.asserts = append(tr.asserts, app("<", app("allocT", t.S), q("$clock@0")))
 		tr.vals[v] = t
 		return t
 	case *ssa.FieldAddr:
